@@ -757,6 +757,12 @@ pub mod verif_hooks {
         r.receiving = Receiving::Chunks { chunks: chunks.into(), completed };
     }
 
+    /// A data buffer holding the given chunks (representation invariant: `remaining` is their total length).
+    pub fn data_buf_from_chunks(chunks: Vec<Bytes>) -> DataBuf {
+        let remaining = chunks.iter().map(|c| c.len()).sum();
+        DataBuf { bufs: chunks.into(), remaining }
+    }
+
     /// `remaining` counter of a data buffer (as reported through the `Buf` API).
     pub fn data_buf_remaining(d: &DataBuf) -> usize {
         d.remaining
